@@ -701,11 +701,6 @@ class Interp:
                     g = self.local_guard(frame)
                     frame.assigned_outer.setdefault(name, []).append((g, val))
                     return
-                # merge under predicate for loop-local variables
-                g = z_and(*ctx.preds)
-                if ctx.preds and name in env.vars and getattr(frame, 'pred_scoped', False):
-                    env.vars[name] = ite(g, val, env.vars[name])
-                    return
             env.vars[name] = val
             return
         if isinstance(target, (ast.Tuple, ast.List)):
@@ -808,7 +803,13 @@ class Interp:
             if a is _MISSING or b is _MISSING:
                 merged[name] = a if b is _MISSING else b    # defined on one side only (use is guarded by program logic)
                 continue
-            merged[name] = ite(cond, a, b)
+            if isinstance(a, _LoopLocal) or isinstance(b, _LoopLocal):
+                merged[name] = a if isinstance(a, _LoopLocal) else b   # any later use is rejected
+                continue
+            try:
+                merged[name] = ite(cond, a, b)
+            except Unsupported:
+                merged[name] = _Unmergeable(name, cond, a, b)
         env.vars = merged
 
     def stmt_Continue(self, node, env):
@@ -1032,6 +1033,8 @@ class Interp:
             return it.as_seq(self)
         if isinstance(it, (MDict, SMap)):
             return DictView(it, 'keys').as_seq(self)
+        if hasattr(it, 'as_seq') and isinstance(it, SeqBase):
+            return it.as_seq()
         if isinstance(it, SBatched):
             raise Unsupported('direct iteration of batches is handled in for_each')
         items = self.concrete_items(it)
@@ -1703,6 +1706,10 @@ class Interp:
             for k, v in src.items():
                 self.setitem(d, k, from_native(v), None)
             return
+        from vc.pyvc.values import SOptRec
+        if isinstance(src, SOptRec):
+            self.safety_check(z_bool(src.present), TypeError, None, 'dict(None)')
+            src = src.rec
         if isinstance(src, SRec):
             if isinstance(d, MDict) and not d.d and not d.nodes:
                 # dict(rec): copy of a record
@@ -1795,6 +1802,14 @@ _MISSING = object()
 class _LoopLocal:
     def __init__(self, name):
         self.name = name
+
+
+class _Unmergeable(_LoopLocal):
+    """A variable holding values that cannot be merged after a predicated branch; using it is unsupported."""
+
+    def __init__(self, name, cond, a, b):
+        super().__init__(name)
+        self.cond, self.a, self.b = cond, a, b
 
 
 class TruthOnly(Sym):
